@@ -201,7 +201,7 @@ def context_for(ev, sp, rng):
     return pro, (mcv, pl, ev["jumbo"]), epi, vals
 
 
-def base_trace(wd, events, require_all=True, phy=(0, 1), others_require=True, out_tid=None):
+def base_trace(wd, events, require_all=True, phy=(0, 1), others_require=True, out_tid=None, other_events=()):
     """Thread 10 runs `events` between OHx and OHe; thread 11 (same process) and
     threads 12 and 13 (two more processes of the loom) are alive."""
     req = {n: v for (n, v) in histgen.REQUIRE.values()} if require_all else None
@@ -220,6 +220,9 @@ def base_trace(wd, events, require_all=True, phy=(0, 1), others_require=True, ou
             h += [(102, "KCO", b"", False), (end - 1, "KCI", b"", False)]
         return h + [(end, "OHe", b"", False)]
     h11 = life(11, t + 5)
+    # other_events: what thread 11 (same process) does right after it starts, before thread 10's events
+    if other_events:
+        h11[1:1] = [(101, m, p, j) for (m, p, j) in other_events]
     shutil.rmtree(wd, ignore_errors=True)
     obs.write_stream(wd, "L", 1, 10, obs.thread_meta(10, 1, "L", cpus=[(0, phy[0]), (1, phy[1])], require=req, extra=extra), h10)
     # a model is enabled when some thread requires it: the other threads may well require the base model only
@@ -291,8 +294,15 @@ def _run_listed_once(chk, build, ev, sp, mcv, draw, res, state=None):
         # physical CPU ids need not equal the logical indices
         phy = [(0, 1), (4, 5), (1, 0), (7, 2)][(draw + len(pro)) % 4] if not state else (0, 1)
         # a remote affinity event may name a thread the kernel has switched out
+        other = ()
+        if mcv == "VTx" and state is None and draw % 3 == 2:
+            # a task that has run and ended on another thread of the process runs again here (taskiter)
+            mk = obs.u32
+            other = (("VYc", mk(5) + b"ty\0", True), ("VTc", mk(9, 5), False), ("VTx", mk(9, 0), False), ("VTe", mk(9, 0), False))
+            pro = []
         out_tid = vals.get("tid") if (mcv == "OAr" and draw % 2 == 1 and require_kernel_ok(state)) else None
-        base_trace(wd, pro + [e] + epi, phy=phy, others_require=(draw % 3 != 2) or out_tid is not None, out_tid=out_tid)
+        base_trace(wd, pro + [e] + epi, phy=phy, others_require=(draw % 3 != 2) or out_tid is not None or bool(other), out_tid=out_tid,
+                   other_events=other)
         r = emu.emu(build, wd)
         res["judged"] += 1
         if r.sig or r.rc not in (0, 1):
